@@ -188,9 +188,37 @@ pub fn check(cfg: &CfgSpec) -> Outcome {
     out
 }
 
+/// Every valid block size as `config.block_size` (other fields default), probed with an input that is
+/// one sample longer than the block, so that the block size is actually used and decoded back.
+pub fn check_block_size(b: &usize) -> Outcome {
+    let mut cfg = CfgSpec::default();
+    cfg.block_size = *b;
+    let mut out = Outcome::new(*b as u64);
+    out.nontrivial = true;
+    let Ok(vcfg) = enc::verified(&cfg) else {
+        out.viol("rejects-in-range:block_size", format!("block size {b} is inside 32..=32767 but verification rejects it"));
+        return out;
+    };
+    // mostly silence with a click in the second half of the block (constant detection must not apply)
+    let mut samples = vec![0i32; b + 1];
+    samples[b / 2] = 57;
+    samples[*b] = -3;
+    match catch(|| enc::encode_stream(&vcfg, &samples, 1, 8, 22050, *b, SrcKind::Mem).and_then(|s| enc::stream_bytes(&s, enc::sane_bits(samples.len(), 8)))) {
+        Err(p) => out.viol(format!("accepted-config-panics:{}", normalise(&p.sig())), format!("block size {b}: {} at {}", p.msg, p.loc)),
+        Ok(Err(e)) => out.viol("accepted-config-fails-to-encode", format!("block size {b}: {e}")),
+        Ok(Ok(bytes)) => {
+            let tr = crate::oracle::refdec::decode(&bytes, Some(*b));
+            if tr.fatal.is_some() || tr.samples != samples || tr.frames.len() != 2 || tr.frames[0].block_size != *b {
+                out.viol("accepted-config-not-lossless", format!("block size {b}: the emitted stream does not decode to the input ({:?}, {} frames)", tr.fatal, tr.frames.len()));
+            }
+        }
+    }
+    out
+}
+
 pub fn run(ctx: &Ctx) {
     ctx.rule(
-        "complete enumeration of every single field at its boundary values {min-1, min, max, max+1, 2^8+k, 2^32+k, usize::MAX; NaN, +-inf, -0.0, 1+ulp, -ulp for alpha} with all other fields valid, and of ALL PAIRS of such values; plus random full assignments (valid and invalid generators); \
+        "complete enumeration of every single field at its boundary values {min-1, min, max, max+1, 2^8+k, 2^32+k, usize::MAX; NaN, +-inf, -0.0, 1+ulp, -ulp for alpha} with all other fields valid, and of ALL PAIRS of such values; plus random full assignments (valid and invalid generators); plus EVERY valid block size 32..=32767 as config.block_size with a probe one sample longer than the block; \
          oracle: independent predicate written from the documentation <=> into_verified().is_ok(), the error path names an offending field, every accepted configuration encodes a probe corpus of 30 inputs (all widths, 1/2/5 channels, 50 and 700 samples) without panic and losslessly (reference decoder); \
          non-trivial = configuration with at least one field on a boundary; distinct by value",
     );
@@ -229,7 +257,9 @@ pub fn run(ctx: &Ctx) {
         fv[f2][v2](&mut c);
         c
     }, check);
-    ctx.set_extra("exhaustive_spaces", serde_json::json!({"single_field_boundary_values": ns, "pairs_of_boundary_values": np}));
+    // every valid block size, actually used by the probe
+    ctx.enumerate("block-size-sweep", 16, 32767 - 32 + 1, |i| 32 + i as usize, check_block_size);
+    ctx.set_extra("exhaustive_spaces", serde_json::json!({"single_field_boundary_values": ns, "pairs_of_boundary_values": np, "block_size_values_32..=32767_each_used_by_a_probe": 32736}));
     ctx.exhaustive.store(false, std::sync::atomic::Ordering::Relaxed);
     let per = ctx.tier.scale(150, 20);
     ctx.search("random-valid", 16, per, &|| gen::cfg_strategy(CfgOpts { allow_multithread: true, max_block: 32767, ..Default::default() }), check);
@@ -269,6 +299,9 @@ pub fn any_cfg_strategy() -> BoxedStrategy<CfgSpec> {
 }
 
 pub fn replay(path: &str) -> Result<Outcome, String> {
-    let (_k, case): (String, CfgSpec) = crate::core::load_replay(path)?;
-    Ok(check(&case))
+    let (kind, case) = crate::core::replay_kind(path)?;
+    if kind == "block-size-sweep" {
+        return Ok(check_block_size(&serde_json::from_value(case).map_err(|e| e.to_string())?));
+    }
+    Ok(check(&serde_json::from_value(case).map_err(|e| e.to_string())?))
 }
